@@ -29,6 +29,10 @@ class TLCResult:
         m = re.findall(r"(\d+) states generated, (\d+) distinct states found", out)
         self.generated = int(m[-1][0]) if m else 0
         self.distinct = int(m[-1][1]) if m else 0
+        if not m:
+            ms = re.search(r"The number of states generated: (\d+)", out)
+            if ms:
+                self.generated = int(ms.group(1))
         m = re.search(r"depth of the complete state graph search is (\d+)", out)
         self.depth = int(m.group(1)) if m else 0
         self.violated = re.findall(r"Error: Invariant (\S+) is violated", out) + \
